@@ -39,6 +39,7 @@ RULE += (' Also: synchronous callables whose later results are awaitable payload
 RULE += (' Also: large all-synchronous runs (70 000+ items) repeated, driven by hand, inside a running asyncio loop.')
 RULE += (" Also: a tee closed (aclose / async-with exit / child close) during another task's pending read, also inside a running asyncio loop.")
 RULE += (' Also: plain generator functions as callables (nothing reaches the loop, generators come out unstarted).')
+RULE += (' Also: synchronous managers whose enter value is awaitable payload / a generator.')
 ASSUMPTIONS = ["a loop that checks identity of every token and reply is at least as strict as any real event loop",
                "C functions called from asyncstdlib code are visible to sys.monitoring CALL events"]
 EXHAUSTIVE = {"quick": False, "thorough": False}
@@ -128,7 +129,8 @@ def cases(tier, seed, shard, nshards):
                             yield {"kind": "pending-read-close",
                                    "c07": {"kind": "conc_close", "flav": flav, "reborrow": reborrow, "close_at": close_at,
                                            "susp": susp, "via": via}}
-        for tool in ("map", "map2", "starmap", "filter", "takewhile", "accumulate", "reduce", "iter", "exitstack", "sync"):
+        for tool in ("map", "map2", "starmap", "filter", "takewhile", "accumulate", "reduce", "iter", "exitstack", "sync",
+                     "enter_payload", "enter_generator"):
             yield {"kind": "generator-callable", "tool": tool}
         for flav in ("async_class", "async_gen"):
             for n in (1, 2):
@@ -1130,6 +1132,24 @@ def run_generator_callables(case, stats):
             return out
         if tool == "sync":
             return [await A.sync(pieces)(1)]
+        if tool in ("enter_payload", "enter_generator"):
+            # a purely synchronous context manager whose __enter__ value is an awaitable object used as data (a job
+            # handle) / a generator: handed on as it is
+            from ..tools import AwaitablePayload
+            value = AwaitablePayload("enter-value") if tool == "enter_payload" else pieces(1)
+
+            class SyncManager:
+                def __enter__(self):
+                    return value
+
+                def __exit__(self, *exc):
+                    return False
+
+            async with A.ExitStack() as stack:
+                got = await stack.enter_context(SyncManager())
+            if got is not value:
+                raise AssertionError(f"enter_context handed on {got!r} instead of the manager's enter value")
+            return None
         raise ValueError(tool)
 
     viols = []
@@ -1141,6 +1161,8 @@ def run_generator_callables(case, stats):
     except BaseException as exc:  # noqa: BLE001
         surfaced, result = StopIteration, None
         viols.append({"key": f"{tool}/generator-function-callable-raised", "msg": f"{tool} with a generator function as callable: {exc!r}"})
+    if CTX.foreign:
+        viols.append({"key": f"{tool}/awaits-payload", "msg": CTX.foreign[0]})
     if surfaced is not StopIteration:
         coro.close()
         viols.append({"key": f"{tool}/suspends-with-sync-arguments",
